@@ -1,6 +1,7 @@
 """C06 -- automaton-driven enumeration (M1, M2, M3, U1)."""
 from ..rules import enum_rules as E
 from ..rules import fsa_rules as F
+from ..rules import dtype_rules as DT
 from ..rules import cache_rules as CA
 from ..rules import sibling_rules as SI
 from ..rules.common import u1, n1
@@ -26,6 +27,7 @@ def run(ctx):
     ctx.do(CA.rule_c2, "Representation", scope=ctx.scope(ENTRIES))
     ctx.do(CA.rule_cls1, "Representation")
     ctx.do(F.rule_v1)
+    ctx.do(DT.rule_lk1, ["geometry_tools/representation.py"], scope=ctx.scope(ENTRIES))
     ctx.do(E.rule_m4)
     ctx.do(SI.rule_fw1)
     ctx.do(u1, ENTRIES, min_functions=10)
